@@ -1039,6 +1039,22 @@ def resolution_small_trees(run):
                 else:
                     ok = got == want
                 prove('roots-%s' % '-'.join(combo), ok, clause='file analysed == file importlib loads [%r vs %r]' % (got, want), path=path)
+            # names with an empty component are no module names
+            base = os.path.join(top, 'emptycomp')
+            os.makedirs(os.path.join(base, 'p'))
+            open(os.path.join(base, 'p', '__init__.py'), 'w').close()
+            open(os.path.join(base, 'p', 'sub.py'), 'w').close()
+            for bad in ('p..sub', 'p.', 'p.sub.'):
+                try:
+                    got = getattr(Project([base]).get_module(bad), 'filename', 'found')
+                except ImportError:
+                    got = None
+                try:
+                    spec = importlib.machinery.PathFinder.find_spec(bad, [base])
+                    want = spec.origin if spec else None
+                except Exception:
+                    want = None
+                prove('empty-component-%r' % bad, got == want, clause='get_module(%r): %r, importlib: %r' % (bad, got, want), path=path)
             # a project file named like a module that is already loaded from elsewhere (a stdlib module): the roots still come first
             import json as _json, string as _string, sys as _sys2      # noqa: loaded on purpose
             for kind in ('module', 'package'):
